@@ -151,8 +151,13 @@ def st_sensitivity(args):
             subprocess.call(["git", "-C", repo, "worktree", "remove", "--force", dst],
                             stdout=subprocess.DEVNULL, stderr=subprocess.DEVNULL)
             shutil.rmtree(scratch, ignore_errors=True)
-    with open(os.path.join(VERIF, "mutants", "matrix.json"), "w") as f:
-        json.dump(results, f, indent=1, sort_keys=True)
+    mpath = os.path.join(VERIF, "mutants", "matrix.json")
+    merged = {}
+    if which and os.path.exists(mpath):
+        merged = json.load(open(mpath))
+    merged.update(results)
+    with open(mpath, "w") as f:
+        json.dump(merged, f, indent=1, sort_keys=True)
     return 0 if all(v.startswith("CAUGHT") for v in results.values()) else 1
 
 
